@@ -1244,12 +1244,14 @@ class Emitter:
 
     def request_ctor(self, cname, nargs=0):
         n = '%s_ctor' % cname
+        if getattr(self, 'cur_cx', None) is not None: self.cur_cx.calls.add(n)
         if n not in self.emitted and n not in [w[0] for w in self.worklist]:
             self.worklist.append((n, cname, cname, 'ctor'))
         return n
 
     def request_dtor(self, cname):
         n = '%s_dtor' % cname
+        if getattr(self, 'cur_cx', None) is not None: self.cur_cx.calls.add(n)
         if n not in self.emitted and n not in [w[0] for w in self.worklist]:
             self.worklist.append((n, cname, cname, 'dtor'))
         return n
@@ -1398,6 +1400,7 @@ class Emitter:
         cx = Ctx(self, D, fd, fname)
         cx.cname = fname; cx.exact = exact; cx.calls = set(); cx.loops = []; cx.cleanup = [[]]
         cx.cur_maythrow = False; cx.wait_no = 0; cx.iter_src = {}; cx.locks = []
+        self.cur_cx = cx
         return cx
 
     def hook(self, fname):
